@@ -7,8 +7,25 @@ FINDINGS = os.path.join(os.path.dirname(HERE), 'findings.d', 'C06.json')
 
 
 # ------------------------------------------------------------------ generator-side simulation
+RULE = ['n + n // 2 + 1']     # the collection threshold rule of the working tree (set from coq/Generated.v in run())
+
+
 def rule(n):
-    return n + n // 2 + 1
+    return eval(RULE[0], {'__builtins__': {}}, {'n': n})
+
+
+def load_rule():
+    """gc->mitems = <expr over gc->nitems>, as tools/genx_life.py read it off src/GC.c: the generator's
+    own simulation must predict threshold collections with the rule of the tree under test"""
+    try:
+        g = open(os.path.join(vlib.COQ, 'Generated.v')).read()
+        m = re.search(r'Definition gc_mitems_rule \(n : nat\) : nat := ([n0-9+*/() ]+)\.', g)
+        if m:
+            RULE[0] = m.group(1).replace('/', '//')
+            return True
+    except OSError:
+        pass
+    return False
 
 
 class Sim:
@@ -358,7 +375,13 @@ def ledger(step):
     return d
 
 
+BADCASES = []      # cases the harness refused: generator/shrinker errors, never violations
+
+
 def oracle(case, impl, spec):
+    if 'BADCASE' in impl:
+        BADCASES.append(case)
+        return None
     if ';BAD' in spec:
         return None                      # not a well-formed history (use after delete, …)
     nev = len([t for t in model_ops(case)[1] if t[0] != 'u'])
@@ -538,6 +561,8 @@ def run_exit_routes(ctx, drv, volume, only=None):
 
 
 def corr(case, impl, model):
+    if 'BADCASE' in impl or 'BADCASE' in model:
+        return None                      # counted in oracle(); a refused case is not an observation
     if ';BAD' in model:
         return None
     if has_alloc(case) and 'R' in case.split('|', 1)[0]:
@@ -614,7 +639,7 @@ CORPUS = [
     'XOR|' + PAIRS + ' t',
     'MO|b1 l1,1 c t',                               # a Box that owns itself (re-entrant rem of the object being finalised)
     'TO|b1 b2 l1,2 l2,1 c t',                       # two Boxes owning each other
-    'MO|b1 b2 b3 n4 l1,2 l2,3 l3,4 d1 t',           # explicit del runs down a chain of Boxes
+    'MO|b1 b2:1 b3:1,2 n4:1,2,3 l1,2 l2,3 l3,4 d1 t',           # explicit del runs down a chain of Boxes
     'MO|B1 n2 l1,2 c D1 t',                         # root Box: survives collections, del_root finalises both
     'MO|W1 n2 l1,2 c2 x1 t',                        # raw Box owning a managed object
     'MV|n1 n2 n3 u1 c t',
@@ -649,6 +674,9 @@ def run(ctx):
     mine = json.load(open(FINDINGS)) if os.path.exists(FINDINGS) else []
     ctx.findings = [f for f in ctx.findings if f.get('property') != 'C06'] + mine
     ok = ctx.coq()
+    if not load_rule():
+        ctx.notes.append('collection threshold rule not found in Generated.v: generator simulates the pinned rule')
+    ctx.notes.append('collection threshold rule of the tree: mitems = %s' % RULE[0])
     drv = ctx.build_driver('Lifecycle')
     h = ctx.build_harness('lifecycle.c', whitebox='GC')
     rc, pl, _ = ctx.run_lines(drv, [''], args=['params'])
@@ -681,8 +709,14 @@ def run(ctx):
         its failure is not one of the known signatures"""
         def _fails_oracle(self, case):
             i = self.run_impl([case]); sp = self.run_spec([case])
+            nb = len(BADCASES)
             why = oracle(case, i[0], sp[0]) if i and sp else None
+            del BADCASES[nb:]            # a candidate the shrinker made up is not a generated history
             return bool(why) and classify(case, i[0], why) is None
+
+        def _fails_corr(self, case):
+            i = self.run_impl([case]); m = self.run_model([case])
+            return bool(i and m and corr(case, i[0], m[0]))
 
     d = Diff(ctx, 'lifecycle', run_impl, run_model, run_spec, oracle, corr, nontrivial, split, join, classify)
     rp = os.environ.get('VERIF_REPLAY')
@@ -751,6 +785,12 @@ def run(ctx):
     def extra(dd):
         dd.feed([gen_case(ctx.rng, 40) for _ in range(10 * min(n, 3000))])
     # shortest failing histories first: they shrink fastest and read best
+    # cases the harness refused (it will not touch an object that is already finalised): the history
+    # was not well-formed for THIS tree — an error of the generator's own simulation, reported as such
+    ctx.cov['refused_cases'] = {'count': len(BADCASES), 'samples': BADCASES[:3],
+                                'meaning': 'histories the harness refused (BADCASE): generator errors, not observations'}
+    if BADCASES:
+        ctx.notes.append('generator error: %d generated histories were refused by the harness (first: %s)' % (len(BADCASES), BADCASES[0][:200]))
     d.oracle_fail.sort(key=lambda x: len(x[0]))
     d.corr_fail.sort(key=lambda x: len(x[0]))
     d.report(extra)
